@@ -207,7 +207,10 @@ def geometric_knn_entropy(X, Xdist, k=1):
             sing_ratio_sum = 0.0
             if len(sing_Yi) > 0 and sing_Yi[0] > 1e-12:
                 for l in range(min(d, len(sing_Yi))):
-                    if l < len(sing_Yi) and sing_Yi[l] > 1e-12:
+                    # Rank decision relative to the largest singular value: an absolute
+                    # threshold makes the estimate depend on the units of the data
+                    # (rounding noise of a rank-deficient neighbourhood scales with it).
+                    if l < len(sing_Yi) and sing_Yi[l] > 1e-12 * sing_Yi[0]:
                         ratio = sing_Yi[l] / sing_Yi[0]
                         if ratio > 1e-12:
                             sing_ratio_sum += np.log(ratio)
